@@ -1,8 +1,181 @@
-import Pyrtma.Spec.Manager
+import Pyrtma.Proofs.Manager
+/-!
+# C19 — control frames are acknowledged exactly once, in order, to their sender
+
+`dataSends isAck out` lists `(recipient, frame)` for every ACKNOWLEDGE the manager itself wrote.  (An ACKNOWLEDGE-typed
+frame *published by a client* is a data frame with body `.data k`, never `.ack`.)
+-/
 namespace Pyrtma.C19
 open Pyrtma.Mgr
 
-/-- placeholder while the proofs are being written (replaced below) -/
-theorem wip : True := trivial
+abbrev isAck : Body → Bool := fun b => b == .ack
+
+theorem canTake_pres {s s' : State} (h : Pres s s') (v : Nat) : canTake s' v = canTake s v := by
+  unfold canTake
+  rw [failOf_congr h.fail]
+  cases hfo : failOf s v with
+  | some x => cases s'.find v <;> cases s.find v <;> simp
+  | none =>
+    have hk := h.keep v hfo
+    cases h1 : s'.find v <;> cases h2 : s.find v <;> simp [h1, h2] at hk ⊢
+    obtain ⟨hc, _, _, _⟩ := core_fields hk
+    simp [hc]
+
+theorem toLoggers_ok {B} (hB : Tag B) (cfg : Cfg) (f : Frame) : ∀ (ls : List Nat) (s : State),
+    Pres s (toLoggers cfg f ls s) ∧
+    dataSends B (toLoggers cfg f ls s).out =
+      dataSends B s.out ++ (if B f.body = true then (ls.filter (canTake s)).map (fun u => (u, f)) else [])
+  | [], s => ⟨Pres.refl s, by simp [toLoggers]⟩
+  | u :: rest, s => by
+    unfold toLoggers
+    have hstep : Pres s (loggerOne cfg f s u) ∧ dataSends B (loggerOne cfg f s u).out =
+          dataSends B s.out ++ (if canTake s u = true ∧ B f.body = true then [(u, f)] else []) := by
+      unfold loggerOne
+      cases hfind : s.find u with
+      | none => simp [canTake, hfind]; exact Pres.refl s
+      | some m => exact trySend_ok hB cfg (fwdTop_ok hB cfg) s u f
+    obtain ⟨hp, hd⟩ := hstep
+    have ih := toLoggers_ok hB cfg f rest (loggerOne cfg f s u)
+    refine ⟨hp.trans ih.1, ?_⟩
+    rw [ih.2, hd, List.filter_cons]
+    have he : rest.filter (canTake (loggerOne cfg f s u)) = rest.filter (canTake s) := by
+      congr 1; funext v; exact canTake_pres hp v
+    rw [he]
+    by_cases hb : B f.body = true <;> by_cases hc : canTake s u = true <;> simp [hb, hc]
+
+/-- **Exactly one ACKNOWLEDGE to the sender, one copy per logger.**  `send_ack` for module `u` (holding id `m.modId`)
+writes: one ACKNOWLEDGE addressed to `m.modId` (source: the manager, id 0) on `u`'s own connection — provided that
+connection can take it — followed by one identical copy to every module that is in the logger set at that moment and
+whose connection can take it; nothing else in the step is an ACKNOWLEDGE, whatever the nested failure handling does. -/
+theorem ack_exactly_once (cfg : Cfg) (s : State) (u : Nat) (m : Module) (hm : s.find u = some m) :
+    dataSends isAck (sendAck cfg s u).out =
+      dataSends isAck s.out ++ (if canTake s u = true then [(u, ackFrame cfg m.modId)] else []) ++
+        (((cfg.order (trySend cfg (fwdTop cfg) s u (ackFrame cfg m.modId)).loggers).filter (canTake s)).map
+          (fun l => (l, ackFrame cfg m.modId))) := by
+  unfold sendAck
+  simp only [hm]
+  have h1 := trySend_ok tag_ack cfg (fwdTop_ok tag_ack cfg) s u (ackFrame cfg m.modId)
+  have h2 := toLoggers_ok tag_ack cfg (ackFrame cfg m.modId)
+    (cfg.order (trySend cfg (fwdTop cfg) s u (ackFrame cfg m.modId)).loggers)
+    (trySend cfg (fwdTop cfg) s u (ackFrame cfg m.modId))
+  rw [h2.2, h1.2]
+  have he : (cfg.order (trySend cfg (fwdTop cfg) s u (ackFrame cfg m.modId)).loggers).filter
+      (canTake (trySend cfg (fwdTop cfg) s u (ackFrame cfg m.modId))) =
+      (cfg.order (trySend cfg (fwdTop cfg) s u (ackFrame cfg m.modId)).loggers).filter (canTake s) := by
+    congr 1; funext v; exact canTake_pres h1.1 v
+  rw [he]
+  have hb : (fun b => b == Body.ack) (ackFrame cfg m.modId).body = true := rfl
+  simp [hb]
+
+/-- the acknowledgement is addressed to the sending module, from the manager, with no payload -/
+theorem ack_shape (cfg : Cfg) (d : Int) :
+    (ackFrame cfg d).dest = d ∧ (ackFrame cfg d).src = 0 ∧ (ackFrame cfg d).nbytes = 0 ∧
+    (ackFrame cfg d).mtype = cfg.mtAck := ⟨rfl, rfl, rfl, rfl⟩
+
+/-- the loggers that get a copy are loggers of the state before the step (nothing is ever added to that set by the
+    failure handling), so "one copy per logger module" is exact -/
+theorem ack_copies_only_to_loggers (cfg : Cfg) (s : State) (u : Nat) (f : Frame) (l : Nat)
+    (h : l ∈ (trySend cfg (fwdTop cfg) s u f).loggers) : l ∈ s.loggers :=
+  (trySend_ok tag_ack cfg (fwdTop_ok tag_ack cfg) s u f).1.loggers l h
+
+/-- **Data frames are never acknowledged**: forwarding anything — a client's data frame or a manager message —
+writes no ACKNOWLEDGE on any connection. -/
+theorem forward_never_acks (cfg : Cfg) (s : State) (g : Frame) (hg : g.body ≠ .ack) :
+    dataSends isAck (fwdTop cfg s g).out = dataSends isAck s.out :=
+  (fwdTop_ok tag_ack cfg s g (by simpa [isAck] using hg)).2
+
+/-- removing a module (DISCONNECT, broken frame, refused connect) writes no ACKNOWLEDGE -/
+theorem remove_never_acks (cfg : Cfg) (s : State) (u : Nat) :
+    dataSends isAck (removeModule cfg (fwdTop cfg) s u).out = dataSends isAck s.out := by
+  unfold removeModule
+  split
+  · simp
+  · rename_i m hm
+    dsimp only
+    rw [(fwdTop_ok tag_ack cfg _ _ (by simp [closedFrame, mgrFrame])).2]
+    split <;> simp [dataSends]
+
+theorem log_never_acks (cfg : Cfg) (lvl : Nat) (s : State) :
+    dataSends isAck (logAt cfg (fwdTop cfg) lvl s).out = dataSends isAck s.out :=
+  (logAt_ok tag_ack cfg (fwdTop_ok tag_ack cfg) lvl s).2
+
+/-- the type ids that `process_message` tests before the four subscription requests differ from them
+    (instantiated at the ids of the source tree in `Gen/Consts.lean`) -/
+structure DistinctIds (cfg : Cfg) : Prop where
+  s1 : cfg.mtSubscribe ≠ cfg.mtConnect
+  s2 : cfg.mtSubscribe ≠ cfg.mtConnectV2
+  s3 : cfg.mtSubscribe ≠ cfg.mtDisconnect
+  r1 : cfg.mtResume ≠ cfg.mtConnect
+  r2 : cfg.mtResume ≠ cfg.mtConnectV2
+  r3 : cfg.mtResume ≠ cfg.mtDisconnect
+  u1 : cfg.mtUnsubscribe ≠ cfg.mtConnect
+  u2 : cfg.mtUnsubscribe ≠ cfg.mtConnectV2
+  u3 : cfg.mtUnsubscribe ≠ cfg.mtDisconnect
+  u4 : cfg.mtUnsubscribe ≠ cfg.mtSubscribe
+  u5 : cfg.mtUnsubscribe ≠ cfg.mtResume
+  p1 : cfg.mtPause ≠ cfg.mtConnect
+  p2 : cfg.mtPause ≠ cfg.mtConnectV2
+  p3 : cfg.mtPause ≠ cfg.mtDisconnect
+  p4 : cfg.mtPause ≠ cfg.mtSubscribe
+  p5 : cfg.mtPause ≠ cfg.mtResume
+
+/-- **Never acknowledged**: a data frame (any type id that is not one of the nine control types), MODULE_READY,
+CLIENT_SET_NAME and DISCONNECT produce no ACKNOWLEDGE on any connection. -/
+theorem never_acked (cfg : Cfg) (s : State) (u : Nat) (h : Hdr)
+    (ht : h.mtype ≠ cfg.mtConnect ∧ h.mtype ≠ cfg.mtConnectV2 ∧ h.mtype ≠ cfg.mtSubscribe ∧ h.mtype ≠ cfg.mtResume ∧
+          h.mtype ≠ cfg.mtUnsubscribe ∧ h.mtype ≠ cfg.mtPause) :
+    dataSends isAck (processMessage cfg s u h).out = dataSends isAck s.out := by
+  obtain ⟨h1, h2, h3, h4, h5, h6⟩ := ht
+  have e1 : (h.mtype == cfg.mtConnect) = false := by simpa using h1
+  have e2 : (h.mtype == cfg.mtConnectV2) = false := by simpa using h2
+  have e3 : (h.mtype == cfg.mtSubscribe) = false := by simpa using h3
+  have e4 : (h.mtype == cfg.mtResume) = false := by simpa using h4
+  have e5 : (h.mtype == cfg.mtUnsubscribe) = false := by simpa using h5
+  have e6 : (h.mtype == cfg.mtPause) = false := by simpa using h6
+  unfold processMessage
+  simp only [e1, e2, e3, e4, e5, e6, Bool.or_self, Bool.false_eq_true, if_false]
+  split
+  · rw [log_never_acks, remove_never_acks]
+  · split
+    · split
+      · rw [remove_never_acks, log_never_acks]
+      · unfold sendInfo; split
+        · rw [log_never_acks]; rfl
+        · rw [forward_never_acks _ _ _ (by simp [infoFrame, mgrFrame]), log_never_acks]; rfl
+    · split
+      · unfold sendInfo; split
+        · rfl
+        · rw [forward_never_acks _ _ _ (by simp [infoFrame, mgrFrame])]; rfl
+      · rw [forward_never_acks _ _ _ (by simp)]
+
+/-- **SUBSCRIBE / RESUME / UNSUBSCRIBE / PAUSE are always acknowledged**, whether or not the request changed anything:
+processing such a frame *is* the table update followed by `send_ack` to the sender. -/
+theorem control_frames_acked (cfg : Cfg) (hd : DistinctIds cfg) (s : State) (u : Nat) (h : Hdr) :
+    ((h.mtype = cfg.mtSubscribe ∨ h.mtype = cfg.mtResume) →
+      processMessage cfg s u h = sendAck cfg (addSub cfg s u (bufI32 s.buf 0)) u) ∧
+    ((h.mtype = cfg.mtUnsubscribe ∨ h.mtype = cfg.mtPause) →
+      processMessage cfg s u h = sendAck cfg (removeSub cfg s u (bufI32 s.buf 0)) u) := by
+  have f (a b : Int) (hne : a ≠ b) : (a == b) = false := by simpa using hne
+  constructor <;> intro ht <;> unfold processMessage <;> rcases ht with ht | ht <;> rw [ht]
+  · simp only [f _ _ hd.s1, f _ _ hd.s2, f _ _ hd.s3, beq_self_eq_true, Bool.or_self, Bool.true_or,
+      Bool.false_eq_true, if_false, if_true]
+  · simp only [f _ _ hd.r1, f _ _ hd.r2, f _ _ hd.r3, beq_self_eq_true, Bool.or_self, Bool.or_true,
+      Bool.false_eq_true, if_false, if_true]
+  · simp only [f _ _ hd.u1, f _ _ hd.u2, f _ _ hd.u3, f _ _ hd.u4, f _ _ hd.u5, beq_self_eq_true, Bool.or_self,
+      Bool.true_or, Bool.false_eq_true, if_false, if_true]
+  · simp only [f _ _ hd.p1, f _ _ hd.p2, f _ _ hd.p3, f _ _ hd.p4, f _ _ hd.p5, beq_self_eq_true, Bool.or_self,
+      Bool.or_true, Bool.false_eq_true, if_false, if_true]
+
+/-! ### Non-vacuity -/
+def exState : State :=
+  { mods := [{ uid := 0, connected := true }, { uid := 1, modId := 10, connected := true },
+             { uid := 2, modId := 11, connected := true, isLogger := true },
+             { uid := 3, modId := 12, connected := true, isLogger := true }],
+    loggers := [2, 3], wlist := [1, 2], nextUid := 3, buf := [136, 19, 0, 0], fail := [(3, .hdr)] }
+
+/-- module 1 subscribes: one ACK to 1, one copy to logger 2; logger 3's socket is broken: it gets nothing (and is dropped) -/
+example : dataSends isAck (processMessage {} exState 1 { mtype := 15 }).out =
+    [(1, ackFrame {} 10), (2, ackFrame {} 10)] := by decide
+example : DistinctIds {} := by constructor <;> decide
 
 end Pyrtma.C19
